@@ -42,6 +42,12 @@ func c20Run(ci any) Result {
 			inGroup = false
 		}
 	}
+	// ... or on the router of a host with an unusual name (reversed through that host's router, requested with that Host)
+	onHost := ""
+	if !inGroup && !byHandler && (c.Idx+len(c.Routes)+3*len(c.Args))%5 == 2 {
+		onHost = "API.Example.com:8443"
+		reg = e.Host(onHost)
+	}
 	if inGroup {
 		reg = e.Group("/grp", func(next echo.HandlerFunc) echo.HandlerFunc { return func(ctx echo.Context) error { return next(ctx) } })
 		routes = nil
@@ -168,9 +174,13 @@ func c20Run(ci any) Result {
 			entryMismatch = fmt.Sprintf("Echo.URL gives %q, Echo.URI gives %q", u2, url)
 		}
 	} else {
-		url = e.Reverse(name(c.Idx), args...)
-		if u2 := e.Router().Reverse(name(c.Idx), args...); u2 != url {
-			entryMismatch = fmt.Sprintf("Router.Reverse gives %q, Echo.Reverse gives %q", u2, url)
+		if onHost != "" {
+			url = e.Routers()[onHost].Reverse(name(c.Idx), args...)
+		} else {
+			url = e.Reverse(name(c.Idx), args...)
+			if u2 := e.Router().Reverse(name(c.Idx), args...); u2 != url {
+				entryMismatch = fmt.Sprintf("Router.Reverse gives %q, Echo.Reverse gives %q", u2, url)
+			}
 		}
 	}
 	rt := routes[c.Idx]
@@ -179,7 +189,7 @@ func c20Run(ci any) Result {
 		e.Pre(func(next echo.HandlerFunc) echo.HandlerFunc { return func(ctx echo.Context) error { return next(ctx) } })
 	}
 	// the URL travels as a server would parse it: URL.Path decoded, URL.RawPath = the text as sent (when they differ)
-	rServeRec(e, &cur, rReq{Method: rt.Method, Path: url, Raw: len(url)%2 == 0})
+	rServeRec(e, &cur, rReq{Method: rt.Method, Path: url, Raw: len(url)%2 == 0, Host: onHost})
 	res := Result{
 		Ops: wJoin(rTableWire(routes), wInt(c.Idx), wStrs(c.Args)),
 		Obs: wJoin(wStr(url), cur.wire()),
@@ -188,6 +198,9 @@ func c20Run(ci any) Result {
 	tags := []string{}
 	if inGroup {
 		tags = append(tags, "routes-in-a-group-with-middleware")
+	}
+	if onHost != "" {
+		tags = append(tags, "routes-on-a-host-router")
 	}
 	if hostTwin {
 		tags = append(tags, "host-router-with-equal-names")
